@@ -144,8 +144,8 @@ def regex_rule(ck, env):
                             break
                     if not escaped:
                         bad.append((False, "%s reaches the pattern without QRegularExpression::escape" % leaf.get("name")))
-                elif isinstance(leaf, dict) and is_call(leaf, "QRegularExpression::escape"):
-                    continue
+                elif isinstance(leaf, dict) and is_call(leaf, ("QRegularExpression::escape", "QRegularExpression::wildcardToRegularExpression")):
+                    continue   # Qt's own converters neutralise every metacharacter of their input
                 else:
                     bad.append((None, "pattern piece %s is neither a constant nor escaped local text" % describe(leaf)))
             ok = True if not bad else (False if any(b[0] is False for b in bad) else None)
